@@ -196,72 +196,10 @@ def setHdr (f : Header → Header) : NetM Unit :=
 /-- fuel of the node layer's loops: one unit per loop iteration / nested call -/
 def NET_FUEL : Nat := 200000
 
-/-- `_tx_standby(delta_time)` -/
-def txStandby (deadline : Nat) : Nat → NetM Bool
-  | 0 => throw .diverge
-  | f + 1 => do
-    if (← nowNs) < deadline then
-      let r ← liftRf (Rf24.resend true)
-      match r with
-      | .bool true => return true
-      | _ => txStandby deadline f
-    else return false
-
-def txStandbyFor (ms : Nat) : NetM Bool := do
-  let deadline := ms * 1000000 + (← nowNs)
-  txStandby deadline 4000
-
 def sendRes (r : Rf24.SendRes × Bytes) : Bool :=
   match r.1 with
   | .bool b => b
   | .payload p => p.isSome && p != some []
-
-/-- the fragment loop of `_write_to_pipe` -/
-def fragLoop (total msgT : Nat) : Nat → NetM Bool
-  | 0 => return false   -- `range(total)` with total = 0 cannot happen (len > 24)
-  | left + 1 => do
-    let count := total - (left + 1)
-    let n ← getNode
-    let msg := n.frameBuf.message
-    let last := count == total - 1
-    setHdr fun h => { h with reserved := total - count }
-    if last then setHdr fun h => { (h.setTy MSG_FRAG_LAST) with reserved := msgT }
-    else if count = 0 then setHdr fun h => h.setTy MSG_FRAG_FIRST
-    else setHdr fun h => h.setTy MSG_FRAG_MORE
-    let bufEnd := if last then msg.length else count * MAX_FRAG_SIZE + MAX_FRAG_SIZE
-    let hb ← liftPy (← getNode).frameBuf.header.pack
-    let r ← liftRf (Rf24.send (hb ++ pySlice msg (count * MAX_FRAG_SIZE) bufEnd) false false 0 true)
-    let mut result := sendRes r
-    -- `retries = 3; while not result and retries: …`
-    for _ in [0, 1, 2] do
-      if !result then
-        sleepNs 2000000
-        result ← txStandbyFor (← getNode).txTimeout
-    if !result then return false
-    if left = 0 then return true
-    fragLoop total msgT left
-
-/-- `_write_to_pipe(to_node, to_pipe, is_multicast)` -/
-def writeToPipe (toNode toPipe : Nat) (isMulticast : Bool) : NetM Bool := do
-  let n ← getNode
-  if toNode = n.a.addr then return (← enqueueFrameBuf)
-  liftRf (Rf24.setAutoAckAttr (.i (0x3E + (if isMulticast then 0 else 1))))
-  liftRf (Rf24.setListen false)
-  let addr ← pipeAddr toNode toPipe
-  liftRf (Rf24.openTxPipe addr)
-  let n ← getNode
-  if n.frameBuf.message.length ≤ MAX_FRAG_SIZE then
-    let pk ← liftPy n.frameBuf.pack
-    let r ← liftRf (Rf24.send pk false false 0 true)
-    if sendRes r then return true
-    txStandbyFor n.txTimeout
-  else
-    let msgLen := n.frameBuf.message.length
-    let total := (if msgLen % MAX_FRAG_SIZE ≠ 0 then 1 else 0) + msgLen / MAX_FRAG_SIZE
-    let msgT := n.frameBuf.header.ty
-    let result ← fragLoop total msgT total
-    setHdr fun h => h.setTy msgT
-    return result
 
 /-- the radio part of `_begin(n_addr)` -/
 def beginRadio (nAddr : Nat) : NetM Unit := do
@@ -294,6 +232,93 @@ def masterLookupReply (m : Mesh.Master) (n : Node) (msgT : Nat) : PyM Bytes :=
   Mesh.lookupReply m msgT n.frameBuf.message
 
 mutual
+
+/-- `self._rf24.send(buf, send_only=True)` as the network layer calls it (a scheduling point of
+    the closed system: the other nodes that have received something run first) -/
+def rfSend : Nat → Bytes → NetM Bool
+  | 0, _ => throw .diverge
+  | f + 1, buf => do
+    if (← get).closed then runOthers f 0
+    return sendRes (← liftRf (Rf24.send buf false false 0 true))
+
+/-- `self._rf24.resend(send_only=True)` (also a scheduling point) -/
+def rfResend : Nat → NetM Bool
+  | 0 => throw .diverge
+  | f + 1 => do
+    if (← get).closed then runOthers f 0
+    match (← liftRf (Rf24.resend true)) with
+    | .bool b => return b
+    | .payload p => return p.isSome && p != some []
+
+/-- the loop of `_tx_standby(delta_time)` -/
+def txStandby : Nat → Nat → NetM Bool
+  | 0, _ => throw .diverge
+  | f + 1, deadline => do
+    if (← nowNs) < deadline then
+      if (← rfResend f) then return true
+      txStandby f deadline
+    else return false
+
+/-- `_tx_standby(delta_time)` -/
+def txStandbyFor : Nat → Nat → NetM Bool
+  | 0, _ => throw .diverge
+  | f + 1, ms => do
+    let deadline := ms * 1000000 + (← nowNs)
+    txStandby f deadline
+
+/-- `retries = 3; while not result and retries: time.sleep(0.002); result = _tx_standby(…)` -/
+def fragRetry : Nat → Nat → Bool → NetM Bool
+  | 0, _, _ => throw .diverge
+  | f + 1, retries, result => do
+    if !result ∧ retries ≠ 0 then
+      sleepNs 2000000
+      let r ← txStandbyFor f (← getNode).txTimeout
+      fragRetry f (retries - 1) r
+    else return result
+
+/-- the fragment loop of `_write_to_pipe` (`left` = fragments still to send) -/
+def fragLoop : Nat → Nat → Nat → Nat → NetM Bool
+  | 0, _, _, _ => throw .diverge
+  | f + 1, total, msgT, left => do
+    if left = 0 then return false   -- `range(total)` with total = 0 cannot happen (len > 24)
+    let count := total - left
+    let n ← getNode
+    let msg := n.frameBuf.message
+    let last := count == total - 1
+    setHdr fun h => { h with reserved := total - count }
+    if last then setHdr fun h => { (h.setTy MSG_FRAG_LAST) with reserved := msgT }
+    else if count = 0 then setHdr fun h => h.setTy MSG_FRAG_FIRST
+    else setHdr fun h => h.setTy MSG_FRAG_MORE
+    let bufEnd := if last then msg.length else count * MAX_FRAG_SIZE + MAX_FRAG_SIZE
+    let hb ← liftPy (← getNode).frameBuf.header.pack
+    let r ← rfSend f (hb ++ pySlice msg (count * MAX_FRAG_SIZE) bufEnd)
+    let result ← fragRetry f 3 r
+    if !result then return false
+    if left = 1 then return true
+    fragLoop f total msgT (left - 1)
+
+/-- `_write_to_pipe(to_node, to_pipe, is_multicast)` -/
+def writeToPipe : Nat → Nat → Nat → Bool → NetM Bool
+  | 0, _, _, _ => throw .diverge
+  | f + 1, toNode, toPipe, isMulticast => do
+    let n ← getNode
+    if toNode = n.a.addr then return (← enqueueFrameBuf)
+    liftRf (Rf24.setAutoAckAttr (.i (0x3E + (if isMulticast then 0 else 1))))
+    liftRf (Rf24.setListen false)
+    let addr ← pipeAddr toNode toPipe
+    liftRf (Rf24.openTxPipe addr)
+    let n ← getNode
+    if n.frameBuf.message.length ≤ MAX_FRAG_SIZE then
+      let pk ← liftPy n.frameBuf.pack
+      if (← rfSend f pk) then return true
+      txStandbyFor f n.txTimeout
+    else
+      let msgLen := n.frameBuf.message.length
+      let total := (if msgLen % MAX_FRAG_SIZE ≠ 0 then 1 else 0) + msgLen / MAX_FRAG_SIZE
+      let msgT := n.frameBuf.header.ty
+      let result ← fragLoop f total msgT total
+      setHdr fun h => h.setTy msgT
+      return result
 
 /-- `self._rf24.read()` as the network layer calls it: arrivals first; in a closed system the
     other nodes that have received something run `update()` first -/
@@ -409,13 +434,13 @@ def nodeWrite : Nat → Nat → Nat → NetM Bool
     let isAckT ← liftPy n.frameBuf.isAckType
     let (toNode, toPipe, isMulticast) := logi2phys n.a writeDirect sendType
     if sendType = TX_ROUTED ∧ writeDirect = toNode ∧ isAckT then sleepNs 2000000
-    let result ← writeToPipe toNode toPipe isMulticast
+    let result ← writeToPipe f toNode toPipe isMulticast
     let n ← getNode
     if result ∧ isAckT then
       if sendType = TX_ROUTED ∧ toNode = writeDirect ∧ n.frameBuf.header.fromNode ≠ n.a.addr then
         setHdr fun h => { (h.setTy NETWORK_ACK) with toNode := h.fromNode }
         let (an, ap, mc) := logi2phys n.a n.frameBuf.header.fromNode TX_ROUTED
-        let _ ← writeToPipe an ap mc
+        let _ ← writeToPipe f an ap mc
         liftRf (Rf24.setListen true)
         if !mc then liftRf (Rf24.setAutoAckAttr (.i 0x3E))
         return result
